@@ -246,6 +246,9 @@ func (m *Machine) callFunction(fn *ssa.Function, args []Value, env []Value, call
 		name = fn.Origin().String()
 	}
 	if h, ok := m.intrinsic(fn, name); ok {
+		if !pureIntrinsic[fn.Name()] {
+			m.markVisible()
+		}
 		return h(m, caller, fn, args)
 	}
 	if fn.Blocks == nil {
@@ -400,6 +403,9 @@ func (fr *frame) visit(instr ssa.Instruction) continuation {
 	switch in := instr.(type) {
 	case *ssa.DebugRef:
 	case *ssa.UnOp:
+		if in.Op == token.ARROW || (in.Op == token.MUL && !localAddr(in.X)) {
+			m.markVisible()
+		}
 		fr.env[in] = m.unop(fr, in, fr.get(in.X))
 	case *ssa.BinOp:
 		fr.env[in] = m.binop(fr, in.Op, in.X.Type(), fr.get(in.X), fr.get(in.Y))
@@ -440,10 +446,15 @@ func (fr *frame) visit(instr ssa.Instruction) continuation {
 			panic(&goPanic{val: fr.panicVal, pos: fr.panicPos})
 		}
 	case *ssa.Panic:
+		m.markVisible()
 		panic(&goPanic{val: fr.get(in.X), pos: fr.curPos})
 	case *ssa.Send:
+		m.markVisible()
 		m.chanSend(fr, fr.get(in.Chan).(*ChanObj), fr.get(in.X))
 	case *ssa.Store:
+		if !localAddr(in.Addr) {
+			m.markVisible()
+		}
 		p := fr.get(in.Addr).(*Value)
 		if p == nil {
 			m.runtimePanic(fr, "invalid memory address or nil pointer dereference (store)")
@@ -503,8 +514,10 @@ func (fr *frame) visit(instr ssa.Instruction) continuation {
 		mt := in.Type().Underlying().(*types.Map)
 		fr.env[in] = &MapObj{KT: mt.Key(), VT: mt.Elem(), ID: m.newID()}
 	case *ssa.Range:
+		m.markVisible()
 		fr.env[in] = m.rangeIter(fr, fr.get(in.X))
 	case *ssa.Next:
+		m.markVisible()
 		fr.env[in] = m.next(fr, in, fr.get(in.Iter))
 	case *ssa.FieldAddr:
 		p := fr.get(in.X).(*Value)
@@ -520,8 +533,10 @@ func (fr *frame) visit(instr ssa.Instruction) continuation {
 	case *ssa.Index:
 		fr.env[in] = m.index(fr, in)
 	case *ssa.Lookup:
+		m.markVisible()
 		fr.env[in] = m.lookup(fr, in)
 	case *ssa.MapUpdate:
+		m.markVisible()
 		mo := fr.get(in.Map).(*MapObj)
 		if mo == nil {
 			m.runtimePanic(fr, "assignment to entry in nil map")
@@ -543,6 +558,7 @@ func (fr *frame) visit(instr ssa.Instruction) continuation {
 			}
 		}
 	case *ssa.Select:
+		m.markVisible()
 		fr.env[in] = m.selectOp(fr, in)
 	default:
 		m.engineErr("unsupported instruction %T: %s", instr, instr)
@@ -1330,4 +1346,38 @@ func (fr *frame) isHarness() bool {
 		}
 	}
 	return fr.harness == 1
+}
+
+// ---- partial-order reduction support (see sched.go yield) ----
+
+// localAddr: the address is statically rooted in a non-escaping local variable of the current frame, so a load or
+// store through it cannot be observed by another goroutine.
+func localAddr(v ssa.Value) bool {
+	for {
+		switch a := v.(type) {
+		case *ssa.Alloc:
+			return !a.Heap
+		case *ssa.FieldAddr:
+			v = a.X
+		case *ssa.IndexAddr:
+			if _, ok := a.X.Type().Underlying().(*types.Pointer); !ok {
+				return false // element of a slice: the backing array may be shared
+			}
+			v = a.X
+		default:
+			return false
+		}
+	}
+}
+
+// pureIntrinsic: intercepted functions that neither read nor write anything another goroutine could touch (their
+// arguments are registers). Every other intercepted function (sync, atomic, time, reflect, fmt, vfEq, vfSnapshot, ...)
+// counts as a visible action.
+var pureIntrinsic = map[string]bool{
+	"vfPoint": true, "vfEnter": true, "vfExit": true,
+	"vfInt": true, "vfInt8": true, "vfInt16": true, "vfInt32": true, "vfInt64": true, "vfUint": true, "vfUint8": true,
+	"vfUint16": true, "vfUint32": true, "vfUint64": true, "vfUintptr": true, "vfBool": true, "vfFloat32": true, "vfFloat64": true,
+	"vfChoose": true, "vfRange": true, "vfAssume": true, "vfAssert": true, "vfFn": true, "vfPred": true, "vfAnd": true, "vfOr": true,
+	"vfImplies": true, "vfIte": true, "vfIteBool": true, "vfReach": true, "vfTier": true, "vfNumStr": true, "vfConcrete": true,
+	"vfGoroutineID": true, "vfLog": true,
 }
